@@ -60,6 +60,15 @@ func runC08(cfg *vc.Config, rep *vc.Report) {
 		rep.Inc("programs")
 		countFeatures(rep, c)
 		ref := ng.Eval(c.Prog, c.World)
+		if c.Broken == "" && r.Chance(1, 20) {
+			// a character outside the language's alphabet anywhere in an otherwise valid text: the language rejects the script
+			// (dropping the character would often leave a valid - and different - program)
+			pos := r.Intn(len(text) + 1)
+			text = text[:pos] + vc.Pick(r, []string{"!", "#", ";", "&", "^", "~", "?", "'", "é", "<", "|", "\\", "§", "`"}) + text[pos:]
+			c.Broken = "illegal_character"
+			ref = ng.Outcome{Class: ng.ClsRefused}
+			rep.Current(map[string]any{"index": i, "script": text, "vars": c.World.Vars})
+		}
 		real := runReal(text, c.World, freshCompile)
 		rep.Inc("disagreements_checked")
 		rep.Inc("ref_" + ref.Class)
